@@ -6,6 +6,7 @@
 From Coq Require Import List NArith ZArith QArith Bool Arith Lia.
 From Mathy Require Import Num Expr Util Rules.
 From MathyProofs Require Import ExprFacts ApplyTotal.
+From Coq Require Import Sorted.
 Import ListNotations.
 Local Open Scope nat_scope.
 
@@ -42,6 +43,21 @@ Proof.
   - intros (H & C). split; auto. split; [lia|exact H].
 Qed.
 Print Assumptions C06_find_nodes_spec.
+
+(* ... and in in-order: the in-order indices of the returned list are strictly increasing *)
+Lemma combine_seq_sorted {A} (l:list A) : forall s, StronglySorted (fun a b : nat * A => fst a < fst b) (combine (seq s (length l)) l).
+Proof.
+  induction l as [|x l IH]; intros s; cbn [length seq combine]; [constructor|]. constructor; [apply IH|].
+  apply Forall_forall. intros [i y] Hin. apply in_combine_l in Hin. apply in_seq in Hin. cbn [fst]. lia.
+Qed.
+Lemma filter_sorted {A} (R:A -> A -> Prop) f l : StronglySorted R l -> StronglySorted R (filter f l).
+Proof.
+  induction 1 as [|x l Hl IH Hx]; cbn [filter]; [constructor|]. destruct (f x); [|exact IH]. constructor; [exact IH|].
+  apply Forall_forall. intros y Hy. apply filter_In in Hy. rewrite Forall_forall in Hx. apply Hx. tauto.
+Qed.
+Theorem C06_find_nodes_in_order : forall r root, StronglySorted (fun a b : nat * path => fst a < fst b) (find_nodes r root).
+Proof. intros. unfold find_nodes. apply filter_sorted. apply combine_seq_sorted. Qed.
+Print Assumptions C06_find_nodes_in_order.
 
 (* the in-order enumeration lists every node of the tree exactly once *)
 Theorem C06_inorder_positions : forall root,
